@@ -506,11 +506,17 @@ def rule_r10(chk, rid="C03-R10"):
         if len(loops) != 1:
             chk.undecided(rid, f"fords.kalmans.{q}[loop over periods]", f"{len(loops)} loops over t", km.loc(f))
             continue
-        it = squash(loops[0].iter)
-        allowed = {"range(num_periods)", "range(cache.num_periods)", "reversed(range(num_periods))", "reversed(range(cache.num_periods))",
-                   "range(cache.num_periods-1,-1,-1)", "range(num_periods-1,-1,-1)"}
-        chk.ob(rid, f"fords.kalmans.{q}[loop over periods]", it in allowed,
-               f"for t in {unparse(loops[0].iter)}" + ("" if it in allowed else ": not every filtered period is visited"), km.loc(loops[0]), sure=True)
+        from .. import fin
+        from ..core import inline_locals
+        try:
+            got = list(fin.ev(inline_locals(f, loops[0].iter), {"num_periods": 5, "cache.num_periods": 5, "cache.last_period_of_observations": 3}))
+            want = list(range(5))
+            ok = got == want or got == want[::-1]
+            chk.ob(rid, f"fords.kalmans.{q}[loop over periods]", ok,
+                   f"for t in {unparse(loops[0].iter)}" + ("" if ok else f": with 5 filtered periods (last observation in period 3) it visits {got}, not every period"),
+                   km.loc(loops[0]), sure=True)
+        except fin.NotFinite as ex:
+            chk.undecided(rid, f"fords.kalmans.{q}[loop over periods]", f"iterable not evaluable: {ex}", km.loc(loops[0]))
 
 
 def run(chk):
